@@ -54,7 +54,7 @@ def b_moments_flagged(ctx):
 
 def main(tier, seed):
     quick = tier == "quick"
-    items = standard_items(seed, tier, 5, 40, bench_quick=2, ngoals=4, corpus_quick=6, ps_quick=3, ps_thorough=60)
+    items = standard_items(seed, tier, 5, 20, bench_quick=2, ngoals=4, corpus_quick=6, ps_quick=3, ps_thorough=20, bench_thorough=10)
     # declared instead of inferred types: generated programs know the value sets of their finite variables
     extra = []
     for it in items:
